@@ -25,6 +25,11 @@ def newBlock (zero : α) (n : Nat) : Array α := Array.replicate n zero
 
 def Queue.new (nodeSize : Nat) : Queue α := { nodeSize := nodeSize }
 
+/-- `func (q *arrayQueue[T]) Size() int { return q.listSize }` -/
+def Queue.size (q : Queue α) : Int := q.listSize
+/-- `func (q *arrayQueue[T]) IsEmpty() bool { return q.listSize == 0 }` -/
+def Queue.isEmpty (q : Queue α) : Bool := q.listSize == 0
+
 /-- write `v` at `i` of the last block (`rearNode.block[rearIndex] = val`) -/
 def setLast (nodes : List (Array α)) (i : Int) (v : α) : Outcome (List (Array α)) :=
   match nodes.getLast? with
@@ -106,6 +111,11 @@ structure Stack (α : Type) where
   deriving Repr
 
 def Stack.new (nodeSize : Nat) : Stack α := { nodeSize := nodeSize }
+
+/-- `func (s *arrayStack[T]) Size() int { return s.listSize }` -/
+def Stack.size (s : Stack α) : Int := s.listSize
+/-- `func (s *arrayStack[T]) IsEmpty() bool { return s.listSize == 0 }` -/
+def Stack.isEmpty (s : Stack α) : Bool := s.listSize == 0
 
 def Stack.push (zero : α) (s : Stack α) (v : α) : Outcome (Stack α) :=
   let listSize := s.listSize + 1
